@@ -12,29 +12,29 @@ import (
 
 // one registered timer instance
 type c34Gen struct {
-	id        util.TimerID
-	n         int
-	interval  time.Duration
-	maxCalls  int  // intervalFunc returns 0 from this call count on (0: never)
-	endAt     int  // callback returns keep=false at this call (-1: never)
-	errAt     int  // callback returns an error at this call (-1: never)
-	slow      time.Duration
+	id       util.TimerID
+	n        int
+	interval time.Duration
+	maxCalls int // intervalFunc returns 0 from this call count on (0: never)
+	endAt    int // callback returns keep=false at this call (-1: never)
+	errAt    int // callback returns an error at this call (-1: never)
+	slow     time.Duration
 
 	regBefore  time.Time // clock before New was called
 	regSeq     int64     // seq after New returned added=true
 	added      bool
 	replacedBy *c34Gen
 
-	starts    []int64     // seq of callback starts
-	startAt   []time.Time // fake time of callback starts
-	endAtT    []time.Time // fake time of callback ends
-	selfEnded bool        // callback returned !keep or error, or intervalFunc ran out
-	removedSeq int64      // whenRemoved invoked
+	starts     []int64     // seq of callback starts
+	startAt    []time.Time // fake time of callback starts
+	endAtT     []time.Time // fake time of callback ends
+	selfEnded  bool        // callback returned !keep or error, or intervalFunc ran out
+	removedSeq int64       // whenRemoved invoked
 }
 
 type c34Stop struct {
-	ids      map[util.TimerID]bool // nil = all
-	exclude  bool                  // ids are the excluded ones (StopOthers)
+	ids       map[util.TimerID]bool // nil = all
+	exclude   bool                  // ids are the excluded ones (StopOthers)
 	call, ret int64
 }
 
@@ -327,11 +327,11 @@ func c34Describe(gens []*c34Gen) string {
 
 func init() {
 	simkit.Register(&simkit.Harness{
-		ID:   "C34",
-		Run:  c34Run,
-		Real: []string{"util.SimpleTimers", "util.SimpleTimer", "util.ContextDaemon", "util.NewErrCallbackJobWorker", "util.LockedMap"},
-		Stub: []string{"timer callbacks and interval functions (harness closures; may be slow on the fake clock, end themselves or fail)"},
-		Rule: "each run draws resolution, map size, 1-3 clients x 2-8 operations (New with interval/self-ending/failing/slow callbacks, StopTimers, StopOthers, StopAllTimers, sleeps) over 1-3 reused timer ids; the real timer loop runs on the fake clock and the kernel interleaves it, its worker jobs and the clients at every lock operation. distinct = distinct event-log hash; non-trivial = non-zero choice consumed and at least one registered timer judged",
+		ID:          "C34",
+		Run:         c34Run,
+		Real:        []string{"util.SimpleTimers", "util.SimpleTimer", "util.ContextDaemon", "util.NewErrCallbackJobWorker", "util.LockedMap"},
+		Stub:        []string{"timer callbacks and interval functions (harness closures; may be slow on the fake clock, end themselves or fail)"},
+		Rule:        "each run draws resolution, map size, 1-3 clients x 2-8 operations (New with interval/self-ending/failing/slow callbacks, StopTimers, StopOthers, StopAllTimers, sleeps) over 1-3 reused timer ids; the real timer loop runs on the fake clock and the kernel interleaves it, its worker jobs and the clients at every lock operation. distinct = distinct event-log hash; non-trivial = non-zero choice consumed and at least one registered timer judged",
 		Assumptions: []string{"preemption points are lock operations, channel operations, goroutine starts and harness callbacks; the instruction-level window between SimpleTimer.run's context check and the callback call is not split"},
 	})
 }
